@@ -159,12 +159,23 @@ CONTRACTS[VU + "curvature_matrix_with_added_to_diag_from"].gen = _g_diag
 # ------------------------------------------------------------------------------------------------
 # unique-mapping tables: row i of the (unblurred) mapping matrix is the front-packed list (pixel, weight)
 # ------------------------------------------------------------------------------------------------
-def _map_py(u, w, ln, i, p):
-    return float(sum(w[i, c] for c in range(int(ln[i])) if int(u[i, c]) == p))
+def _mapc_py(u, w, ln, P, i, p, c):
+    return float(sum(w[i, k] for k in range(int(c)) if int(u[i, k]) == p))
 
 
-# entry (i, p) of the mapping matrix encoded by the tables: M[i,p] = sum_{c < len[i]} [unique[i,c] == p] weights[i,c]
-macro("c04_map", ["u", "w", "ln", "i", "p"], "sumto(ln[i], lambda c: (w[i, c] if u[i, c] == p else 0))", py=_map_py)
+# partial sums of entry (i, p) of the mapping matrix encoded by the tables:
+#   M[i,p] = sum_{c < len[i]} [unique[i,c] == p] weights[i,c]        (P = number of columns, fixed per instance)
+spec_fn(
+    "c04_mapc", params=[("u", "int[2]"), ("w", "real[2]"), ("ln", "int[1]"), ("P", "$int"), ("i", "int"), ("p", "int"), ("c", "int")],
+    ret="real", let={"N": "min(u.shape[0], min(w.shape[0], ln.shape[0]))", "C": "min(u.shape[1], w.shape[1])"},
+    axioms=["forall(0, N, lambda i: forall(0, P, lambda p: c04_mapc(u, w, ln, P, i, p, 0) == 0, pat=c04_mapc(u, w, ln, P, i, p, 0)))",
+            "forall(0, N, lambda i: forall(0, P, lambda p: forall(0, min(ln[i], C), lambda c: c04_mapc(u, w, ln, P, i, p, c + 1)"
+            " == c04_mapc(u, w, ln, P, i, p, c) + (w[i, c] if u[i, c] == p else 0), pat=c04_mapc(u, w, ln, P, i, p, c + 1))))"],
+    py=_mapc_py,
+    doc="row i of the mapping matrix is the front-packed list (pixel, weight) of the unique tables",
+)
+macro("c04_map", ["u", "w", "ln", "P", "i", "p"], "c04_mapc(u, w, ln, P, i, p, ln[i])",
+      py=lambda u, w, ln, P, i, p: _mapc_py(u, w, ln, P, i, p, ln[i]))
 
 _UT = ["{u}.shape[0] == {n}", "{w}.shape[0] == {n}", "{l}.shape[0] == {n}",
        "forall(0, {n}, lambda i: 0 <= {l}[i] and {l}[i] <= {u}.shape[1] and {l}[i] <= {w}.shape[1])",
@@ -176,7 +187,7 @@ def _ut(u, w, l, n, p):
 
 
 _UTY = {"data_to_pix_unique": "int[2]", "data_weights": "real[2]", "pix_lengths": "int[1]"}
-_U3 = "data_to_pix_unique, data_weights, pix_lengths"
+_U3 = "data_to_pix_unique, data_weights, pix_lengths, P"
 
 _DW = "sumto({n}, lambda i: w_tilde_data[i] * c04_map(" + _U3 + ", i, p))"
 contract(
@@ -190,7 +201,7 @@ contract(
     loops={
         0: {"inv": ["forall(0, P, lambda p: data_vector[p] == " + _DW.format(n="data_0") + ")"]},
         1: {"inv": ["forall(0, P, lambda p: data_vector[p] == " + _DW.format(n="data_0")
-                    + " + w_tilde_data[data_0] * sumto(pix_0_index, lambda c: (data_weights[data_0, c] if data_to_pix_unique[data_0, c] == p else 0)))"]},
+                    + " + w_tilde_data[data_0] * c04_mapc(" + _U3 + ", data_0, p, pix_0_index))"]},
     },
     sentence={"sumto": "the w-tilde data vector is the transposed mapping matrix applied to the w-tilde data term: D_p = sum_i M_ip wd_i"},
 )
@@ -333,3 +344,220 @@ def _g_wd(rng, tier):
 
 CONTRACTS[IU + "w_tilde_data_imaging_from"].gen = _g_wd
 CONTRACTS[IU + "w_tilde_data_imaging_from"].nontrivial = lambda kernel_native, **kw: kernel_native.shape[0] != kernel_native.shape[1]
+
+# ------------------------------------------------------------------------------------------------
+# w-tilde formalism: noise-weighted PSF overlap  W[p,q] = sum_r K[r - p + h] K[r - q + h] / sigma_r^2
+# written over the kernel offsets (a, b) of pixel p:  r = p + (a, b) - (hy, hx),  r - q + h = (a, b) + p - q
+# ------------------------------------------------------------------------------------------------
+def _ovt_py(V, K, y0, x0, y1, x1, a, b):
+    H, W = V.shape
+    Ky, Kx = K.shape
+    ry, rx = y0 + a - Ky // 2, x0 + b - Kx // 2
+    ay, bx = a + y0 - y1, b + x0 - x1
+    if 0 <= ry < H and 0 <= rx < W and V[ry, rx] > 0 and 0 <= a < Ky and 0 <= b < Kx and 0 <= ay < Ky and 0 <= bx < Kx:
+        return float(K[a, b] * K[ay, bx] / V[ry, rx] ** 2)
+    return 0.0
+
+
+def _ov_py(V, K, y0, x0, y1, x1, a, b):
+    Ky, Kx = K.shape
+    tot = 0.0
+    for aa in range(min(a, Ky) + 1):
+        for bb in range(Kx if aa < a else b):
+            if aa < Ky:
+                tot += _ovt_py(V, K, y0, x0, y1, x1, aa, bb)
+    return tot
+
+
+# one term of the overlap sum: kernel offset (a, b) of pixel (y0, x0); the native pixel it touches must be inside the frame
+# and carry a noise value (masked native pixels are zero), and the same native pixel must lie in the kernel of (y1, x1)
+macro("c04_ovt", ["V", "K", "y0", "x0", "y1", "x1", "a", "b"],
+      "(K[a, b] * K[a + y0 - y1, b + x0 - x1] / V[y0 + a - K.shape[0] // 2, x0 + b - K.shape[1] // 2] ** 2"
+      " if (0 <= y0 + a - K.shape[0] // 2 and y0 + a - K.shape[0] // 2 < V.shape[0]"
+      " and 0 <= x0 + b - K.shape[1] // 2 and x0 + b - K.shape[1] // 2 < V.shape[1]"
+      " and V[y0 + a - K.shape[0] // 2, x0 + b - K.shape[1] // 2] > 0"
+      " and 0 <= a + y0 - y1 and a + y0 - y1 < K.shape[0] and 0 <= b + x0 - x1 and b + x0 - x1 < K.shape[1]) else 0)",
+      py=_ovt_py)
+
+_Q4 = "forall(0, H, lambda y0: forall(0, W, lambda x0: forall(0, H, lambda y1: forall(0, W, lambda x1: "
+_FAR = "(y0 - y1 <= -Ky or y0 - y1 >= Ky or x0 - x1 <= -Kx or x0 - x1 >= Kx)"
+spec_fn(
+    "c04_ov", params=[("V", "real[2]"), ("K", "real[2]"), ("y0", "int"), ("x0", "int"), ("y1", "int"), ("x1", "int"), ("a", "int"), ("b", "int")],
+    ret="real", let={"H": "V.shape[0]", "W": "V.shape[1]", "Ky": "K.shape[0]", "Kx": "K.shape[1]"},
+    axioms=[
+        _Q4 + "c04_ov(V, K, y0, x0, y1, x1, 0, 0) == 0, pat=c04_ov(V, K, y0, x0, y1, x1, 0, 0)))))",
+        _Q4 + "forall(0, Ky, lambda a: forall(0, Kx, lambda b: c04_ov(V, K, y0, x0, y1, x1, a, b + 1)"
+              " == c04_ov(V, K, y0, x0, y1, x1, a, b) + c04_ovt(V, K, y0, x0, y1, x1, a, b), pat=c04_ov(V, K, y0, x0, y1, x1, a, b + 1)))))))",
+        _Q4 + "forall(0, Ky, lambda a: c04_ov(V, K, y0, x0, y1, x1, a + 1, 0) == c04_ov(V, K, y0, x0, y1, x1, a, Kx),"
+              " pat=(c04_ov(V, K, y0, x0, y1, x1, a, Kx), c04_ov(V, K, y0, x0, y1, x1, a + 1, 0)))))))",
+    ],
+    lemmas=[
+        # pixels further apart than the kernel extent do not overlap: every term vanishes
+        dict(name="far_row", induct="n", lo=0, hi="Kx", export=False,
+             stmt=_Q4 + "forall(0, Ky, lambda a: implies(" + _FAR + ", c04_ov(V, K, y0, x0, y1, x1, a, n) == c04_ov(V, K, y0, x0, y1, x1, a, 0)),"
+                  " pat=c04_ov(V, K, y0, x0, y1, x1, a, n))))))"),
+        dict(name="far", induct="n", lo=0, hi="Ky",
+             stmt=_Q4 + "implies(" + _FAR + ", c04_ov(V, K, y0, x0, y1, x1, n, 0) == 0), pat=c04_ov(V, K, y0, x0, y1, x1, n, 0)))))"),
+    ],
+    py=_ov_py,
+    doc="scan-order partial sum (rows a, columns b of the kernel) of the noise-weighted overlap of the kernels centred on (y0,x0) and (y1,x1)",
+)
+
+_OV = "c04_ov(value_native, kernel_native, ip0_y, ip0_x, ip1_y, ip1_x, {a}, {b})"
+contract(
+    IU + "w_tilde_curvature_value_from", props=["C04"],
+    types={"value_native": "real[2]", "kernel_native": "real[2]", "ip0_y": "int", "ip0_x": "int", "ip1_y": "int", "ip1_x": "int",
+           "renormalize": "bool"},
+    returns="real",
+    let={"H": "value_native.shape[0]", "W": "value_native.shape[1]", "Ky": "kernel_native.shape[0]", "Kx": "kernel_native.shape[1]",
+         "hy": "kernel_native.shape[0] // 2", "hx": "kernel_native.shape[1] // 2"},
+    requires=["Ky == 2 * hy + 1", "Kx == 2 * hx + 1",
+              "hy <= ip0_y and ip0_y < H - hy and hx <= ip0_x and ip0_x < W - hx",      # footprint of pixel 0 inside the frame
+              "0 <= ip1_y and ip1_y < H and 0 <= ip1_x and ip1_x < W"],
+    ensures=["implies(not renormalize, result == " + _OV.format(a="Ky", b="0") + ")"],
+    loops={
+        0: {"inv": ["curvature_value == " + _OV.format(a="k0_y", b="0")]},
+        1: {"inv": ["curvature_value == " + _OV.format(a="k0_y", b="k0_x")]},
+    },
+    sentence={"c04_ov": "W[p,q] = sum over the kernel offsets of pixel p of K[k] K[k + p - q] / sigma^2 at the native pixel p + k - half, "
+                        "half-width of each axis taken from that axis, native pixels without noise value (masked) excluded"},
+)
+
+
+def _g_wv(rng, tier):
+    for _ in range(gens.budget(tier, 300, 3000)):
+        mask, data, noise, kernel, nfs = _native_case(rng, tier, zero_masked=rng.random() < 0.8)
+        p, q = rng.randrange(len(nfs)), rng.randrange(len(nfs))
+        y1, x1 = (int(nfs[q, 0]), int(nfs[q, 1])) if rng.random() < 0.8 else (rng.randrange(mask.shape[0]), rng.randrange(mask.shape[1]))
+        yield {"value_native": noise, "kernel_native": kernel, "ip0_y": int(nfs[p, 0]), "ip0_x": int(nfs[p, 1]), "ip1_y": y1, "ip1_x": x1,
+               "renormalize": rng.random() < 0.1}
+
+
+CONTRACTS[IU + "w_tilde_curvature_value_from"].gen = _g_wv
+CONTRACTS[IU + "w_tilde_curvature_value_from"].nontrivial = lambda kernel_native, renormalize, **kw: (
+    kernel_native.shape[0] != kernel_native.shape[1] and not renormalize)
+
+
+# W[p, q] for slim pixels p, q of the native index table
+macro("c04_w", ["V", "K", "nfs", "p", "q"], "c04_ov(V, K, nfs[p, 0], nfs[p, 1], nfs[q, 0], nfs[q, 1], K.shape[0], 0)",
+      py=lambda V, K, nfs, p, q: _ov_py(V, K, int(nfs[p, 0]), int(nfs[p, 1]), int(nfs[q, 0]), int(nfs[q, 1]), K.shape[0], 0))
+
+_WPQ = "c04_w(noise_map_native, kernel_native, nfs, {p}, {q})"
+_WT3 = {"noise_map_native": "real[2]", "kernel_native": "real[2]", "native_index_for_slim_index": "int[2]"}
+_UP = "forall(0, {n}, lambda p: forall(p, N, lambda q: w_tilde_curvature[p, q] == " + _WPQ.format(p="p", q="q") + "))"
+contract(
+    IU + "w_tilde_curvature_imaging_from", props=["C04"],
+    types=_WT3, returns="real[2]", let=_NAT, requires=_NATREQ,
+    ensures=["result.shape[0] == N", "result.shape[1] == N",
+             # upper triangle (incl. diagonal) holds the overlaps, the lower triangle mirrors it
+             "forall(0, N, lambda p: forall(p, N, lambda q: result[p, q] == " + _WPQ.format(p="p", q="q")
+             + " and result[q, p] == " + _WPQ.format(p="p", q="q") + "))",
+             "forall(0, N, lambda p: forall(0, N, lambda q: result[p, q] == result[q, p]))"],
+    loops={
+        0: {"inv": [_UP.format(n="ip0"),
+                    "forall(0, N, lambda p: forall(0, N, lambda q: implies(p >= ip0 or q < p, w_tilde_curvature[p, q] == 0)))"]},
+        1: {"inv": [_UP.format(n="ip0"),
+                    "forall(0, N, lambda p: forall(0, N, lambda q: implies(p > ip0 or q < p, w_tilde_curvature[p, q] == 0)))",
+                    "forall(ip0, ip1, lambda q: w_tilde_curvature[ip0, q] == " + _WPQ.format(p="ip0", q="q") + ")",
+                    "forall(ip1, N, lambda q: w_tilde_curvature[ip0, q] == 0)"]},
+        2: {"inv": [_UP.format(n="N"),
+                    "forall(0, ip0, lambda p: forall(p, N, lambda q: w_tilde_curvature[q, p] == " + _WPQ.format(p="p", q="q") + "))"]},
+        3: {"inv": [_UP.format(n="N"),
+                    "forall(0, ip0, lambda p: forall(p, N, lambda q: w_tilde_curvature[q, p] == " + _WPQ.format(p="p", q="q") + "))",
+                    "forall(ip0, ip1, lambda q: w_tilde_curvature[q, ip0] == " + _WPQ.format(p="ip0", q="q") + ")"]},
+    },
+    sentence={"c04_w": "the dense w-tilde matrix holds the noise-weighted PSF overlap W[p,q] of every pixel pair (computed on the upper "
+                       "triangle, mirrored to the lower one)",
+              "result[q, p])": "the w-tilde matrix is symmetric"},
+)
+
+
+def _g_wdense(rng, tier):
+    for _ in range(gens.budget(tier, 100, 1000)):
+        mask, data, noise, kernel, nfs = _native_case(rng, tier, zero_masked=rng.random() < 0.8)
+        yield {"noise_map_native": noise, "kernel_native": kernel, "native_index_for_slim_index": nfs}
+
+
+CONTRACTS[IU + "w_tilde_curvature_imaging_from"].gen = _g_wdense
+CONTRACTS[IU + "w_tilde_curvature_imaging_from"].nontrivial = lambda kernel_native, **kw: kernel_native.shape[0] != kernel_native.shape[1]
+
+# ------------------------------------------------------------------------------------------------
+# curvature matrix from the w-tilde preload:  F = M^T (U + U^T) M,  U = sparse upper-triangular matrix of the preload
+# (row d0 of U is the slice [off(d0), off(d0) + lengths[d0]) of (curvature_indexes, curvature_preload))
+# ------------------------------------------------------------------------------------------------
+spec_fn(
+    "c04_off", params=[("L", "int[1]"), ("i", "int")], ret="int", let={"N": "L.shape[0]"},
+    axioms=["c04_off(L, 0) == 0",
+            "forall(0, N, lambda i: c04_off(L, i + 1) == c04_off(L, i) + L[i], pat=c04_off(L, i + 1))"],
+    lemmas=[dict(name="mono", induct="n", lo=0, hi="N",
+                 stmt="implies(forall(0, N, lambda j: L[j] >= 0), forall(0, n + 1, lambda k1: 0 <= c04_off(L, k1) and c04_off(L, k1) <= c04_off(L, n),"
+                      " pat=((c04_off(L, k1), c04_off(L, n)),)))")],
+    py=lambda L, i: int(np.sum(np.asarray(L)[:i])),
+    doc="start of row i in the concatenated preload: sum of the lengths of the rows before it",
+)
+
+_PRE3 = {"curvature_preload": "real[1]", "curvature_indexes": "int[1]", "curvature_lengths": "int[1]"}
+_PREREQ = ["forall(0, N, lambda d: curvature_lengths[d] >= 0)",
+           "curvature_preload.shape[0] >= c04_off(curvature_lengths, N)", "curvature_indexes.shape[0] >= c04_off(curvature_lengths, N)",
+           "forall(0, c04_off(curvature_lengths, N), lambda e: 0 <= curvature_indexes[e] and curvature_indexes[e] < N)"]
+
+
+def _gin(m0, m1, d0, n):
+    """sum over the first n preload entries of row d0 of  M0[d0,i] * U[d0,d1] * M1[d1,j]"""
+    return ("sumto(%s, lambda k: c04_map(%s, %s, i) * curvature_preload[c04_off(curvature_lengths, %s) + k]"
+            " * c04_map(%s, curvature_indexes[c04_off(curvature_lengths, %s) + k], j))" % (n, m0, d0, d0, m1, d0))
+
+
+def _g(m0, m1, n, i="i", j="j"):
+    """G(i,j) = (M0^T U M1)[i,j] restricted to the first n rows of U"""
+    s = "sumto(%s, lambda d0: %s)" % (n, _gin(m0, m1, "d0", "curvature_lengths[d0]"))
+    return s.replace("i)", i + ")").replace("j)", j + ")") if (i, j) != ("i", "j") else s
+
+
+_GD = lambda n: _g(_U3, _U3, n)
+_GIJ = "c04_G(curvature_preload, curvature_indexes, curvature_lengths, " + _U3 + ", {i}, {j})"
+# G = M^T U M as a macro over the input tables (the same unique tables on both sides)
+macro("c04_G", ["curvature_preload", "curvature_indexes", "curvature_lengths", "data_to_pix_unique", "data_weights", "pix_lengths", "P", "i", "j"],
+      _g(_U3, _U3, "curvature_lengths.shape[0]"))
+
+_ROW0 = "c04_mapc(" + _U3 + ", data_0, i, {n})"
+_ROW1 = "c04_mapc(" + _U3 + ", data_1, j, {n})"
+_ACC1 = _GD("data_0") + " + " + _gin(_U3, _U3, "data_0", "data_1_index")
+_ACC2 = _ACC1 + " + " + _ROW0.format(n="pix_0_index") + " * w_tilde_value * c04_map(" + _U3 + ", data_1, j)"
+_ACC3 = (_ACC2 + " + (data_weights[data_0, pix_0_index] if data_to_pix_unique[data_0, pix_0_index] == i else 0) * w_tilde_value * "
+         + _ROW1.format(n="pix_1_index"))
+_FA = "forall(0, P, lambda i: forall(0, P, lambda j: curvature_matrix[i, j] == {e}))"
+_STEP = ("c04_off(curvature_lengths, data_0 + 1) == c04_off(curvature_lengths, data_0) + curvature_lengths[data_0]"
+         " and c04_off(curvature_lengths, data_0 + 1) <= c04_off(curvature_lengths, N)")
+_SYM = "(" + _GIJ.format(i="a", j="b") + " + " + _GIJ.format(i="b", j="a") + ")"
+contract(
+    IU + "curvature_matrix_via_w_tilde_curvature_preload_imaging_from", props=["C04"],
+    types={**_PRE3, **_UTY, "pix_pixels": "int"}, returns="real[2]",
+    let={"N": "curvature_lengths.shape[0]", "P": "pix_pixels"},
+    requires=["pix_pixels >= 0"] + _PREREQ + _ut("data_to_pix_unique", "data_weights", "pix_lengths", "N", "P"),
+    ensures=["result.shape[0] == P", "result.shape[1] == P",
+             "forall(0, P, lambda a: forall(0, P, lambda b: result[a, b] == " + _SYM + "))",
+             "forall(0, P, lambda a: forall(0, P, lambda b: result[a, b] == result[b, a]))"],
+    loops={
+        0: {"inv": ["curvature_index == c04_off(curvature_lengths, data_0)", _FA.format(e=_GD("data_0"))]},
+        1: {"inv": ["curvature_index == c04_off(curvature_lengths, data_0) + data_1_index", _FA.format(e=_ACC1)],
+            "assert_at": {0: [_STEP],
+                          3: ["data_1 == curvature_indexes[c04_off(curvature_lengths, data_0) + data_1_index]"
+                              " and w_tilde_value == curvature_preload[c04_off(curvature_lengths, data_0) + data_1_index]",
+                              _FA.format(e=_ACC1 + " + c04_map(" + _U3 + ", data_0, i) * w_tilde_value * c04_map(" + _U3 + ", data_1, j)"),
+                              _FA.format(e=_ACC1 + " + c04_map(" + _U3 + ", data_0, i) * curvature_preload[c04_off(curvature_lengths, data_0) + data_1_index]"
+                                         " * c04_map(" + _U3 + ", curvature_indexes[c04_off(curvature_lengths, data_0) + data_1_index], j)")]}},
+        2: {"inv": [_FA.format(e=_ACC2)]},
+        3: {"inv": [_FA.format(e=_ACC3)]},
+        4: {"inv": ["forall(0, P, lambda a: forall(0, P, lambda b: curvature_matrix[a, b] == (" + _SYM + " if a < i and b >= a else " + _GIJ.format(i="a", j="b") + ")))"]},
+        5: {"inv": ["forall(0, P, lambda a: forall(0, P, lambda b: curvature_matrix[a, b] == (" + _SYM
+                    + " if (a < i and b >= a) or (a == i and i <= b and b < j) else " + _GIJ.format(i="a", j="b") + ")))"]},
+        6: {"inv": ["forall(0, P, lambda a: forall(0, P, lambda b: curvature_matrix[a, b] == (" + _SYM
+                    + " if b >= a or b < i else " + _GIJ.format(i="a", j="b") + ")))"]},
+        7: {"inv": ["forall(0, P, lambda a: forall(0, P, lambda b: curvature_matrix[a, b] == (" + _SYM
+                    + " if b >= a or b < i or (b == i and a < j) else " + _GIJ.format(i="a", j="b") + ")))"]},
+    },
+    sentence={"c04_G": "the w-tilde curvature matrix is M^T (U + U^T) M for the mapping matrix M of the unique tables and the sparse upper-triangular "
+                       "overlap matrix U of the preload (diagonal stored halved): F[a,b] = G[a,b] + G[b,a], G = M^T U M",
+              "result[b, a])": "the curvature matrix is symmetric"},
+)
